@@ -423,3 +423,16 @@ def shared_manager_rule(repo: Repo, rep: Report) -> None:
         rep.ob("C17.f-memo-tuple-coherent", ns, "NamespaceManager.normalizeUri", j, src_ok,
                "prefix and local name come from one compute_qname() result" if src_ok else
                "the qname is assembled from parts of different computations (%s): the prefix may belong to a shorter namespace than the one the local name was cut from" % sorted(roots), node=j)
+
+
+_run_base = run
+
+
+def run(repo: Repo, rep: Report) -> None:  # noqa: F811
+    _run_base(repo, rep)
+    from vlib import memo
+
+    rep.rule("C17.h-namespace-memos-key-complete",
+             "every memo in rdflib.namespace and in the in-memory stores' prefix tables (a dict attribute a method both looks up and fills under the same key) is keyed by "
+             "every re-bindable instance attribute its value is computed from, or re-binding that attribute invalidates the memo", floor=4)
+    memo.scan(repo, rep, "C17.h-namespace-memos-key-complete", ["rdflib.namespace", "rdflib.plugins.stores.memory"])
